@@ -106,6 +106,19 @@ def work(item):
             for v in itertools.islice(trees(tname).gen(n), lo, hi):
                 check_value(v, policy, part)
                 part.c['values'] += 1
+        elif kind == 'flat':
+            # long flat containers around the printers' "too long to ever fit" shortcut (3n > 150)
+            for n in (49, 50, 51, 52, 150):
+                for mk, name in ((lambda n: list(range(n)), 'list(range(%d))'), (lambda n: tuple(range(n)), 'tuple(range(%d))'),
+                                 (lambda n: set(range(n)), 'set(range(%d))'), (lambda n: {i: i for i in range(n)}, '{i: i for i in range(%d)}'),
+                                 (lambda n: frozenset(range(n)), 'frozenset(range(%d))'), (lambda n: [[]] * n, '[[]] * %d'),
+                                 (lambda n: ['', -0.0] * (n // 2), "['', -0.0] * (%d // 2)")):
+                    v = mk(n)
+                    cache = {}
+                    part.c['family_values'] += 1
+                    for w in (1, 40, 79, 149, 150, 151, 152, 153, 160, 200, 300, 1000):
+                        for r in values.ribbons(w, 'some'):
+                            check_one(v, name % n, {'width': w, 'ribbon_width': r, 'indent': 4, 'sort_dict_keys': False}, part, cache)
         else:
             _, recipe_list, depths, leaves, widths, indents = item
             for recipe in recipe_list:
@@ -166,6 +179,8 @@ def plan(tier, seed):
         for chunk in core.chunks(len(rec), 56):
             items.append(('family', rec[chunk[0]:chunk[1]], (5, 10, 20, 25), leaves, (1, 2, 5, 10, 20, 40, 79, 200), (1, 4, 8)))
         desc.append('deep chains: %d recipes x depths 5,10,20,25 x %d leaves x 8 widths' % (len(rec), len(leaves)))
+    items.append(('flat',))
+    desc.append('long flat containers with 49..52 and 150 elements at 12 widths (the 3n > 150 shortcut)')
     return items, desc
 
 
@@ -187,7 +202,7 @@ def run(tier, seed):
 
 
 def replay(case):
-    ns = dict(NS, chain=lambda rec, d, leaf: values.chain(tuple(rec), d, leaf))
+    ns = dict(NS, chain=lambda rec, d, leaf: values.chain(tuple(rec), d, leaf), range=range)
     v = eval(case['value'], ns)
     part = core.Part()
     check_one(v, case['value'], case['config'], part, {})
